@@ -39,7 +39,9 @@ CHECKS = {
     'C11': ('TLC: C11_Retained, C11_AtLeastN, C11_RootFiles, C11_RemoveSafe, C11_HandlesBalanced, C11_Lock over KeepN in 1..3 with readers holding '
             'superseded segments. Code: every Persist/Load/Remove/closer call goes through the logging directory wrapper; TLC recomputes the deletion '
             'policy from the logged commits (PolicyCommit) and checks at every event: retained snapshots loadable, no removal of a needed or in-use file, '
-            'handles closed exactly once and none left after Close, lock released (the directory is reopened immediately), second writer refused.', '6 C11'),
+            'handles closed exactly once and none left after Close, lock released (the directory is reopened immediately), second writer refused (two attempts). In addition Apalache discharges an '
+            'inductive invariant of the policy core (spec/Policy.tla: Init => IndInv, IndInv and Next => IndInv\', IndInv => C11_Retained and C11_AtLeastN), i.e. retention safety for any number '
+            'of commits, clean-ups and failed removals.', '6 C11'),
     'C14': ('TLC: fault actions on the persister and merger directory steps (PFail/MFail) with C14_Surfaced, C14_AckCovers and C01/C02/C03/C04 re-checked. '
             'Code: a fault-free run is re-executed under the same schedule with an injected error (before any byte / after half / after the full write; '
             'transient and sticky) on a sampled directory operation; TLC checks: error surfaced to the safe caller and the async callback, readers still '
@@ -48,7 +50,8 @@ CHECKS = {
     'C15': ('TLC: Close modelled as closeCh + one exit action per select site of each loop; safety C15_CloseDurable in the quick tier, liveness '
             'closing ~> closed under weak fairness in the thorough tier. Code: Close is called by a gated goroutine as soon as callers returned, at '
             'schedule-chosen points in the middle of merges, persists and clean-ups; synctest makes a hang exact (all goroutines durably blocked => '
-            'Stuck event => C15_stuck); afterwards the directory is reopened for real and must contain every acknowledged batch. The data-race clause '
+            'Stuck event => C15_stuck), with gates at the start of persist-swap and merge introductions and with the persister pacing itself against the merger; a free-running family (no gates, '
+            'real parallelism) is validated by the same specification; afterwards the directory is reopened for real and must contain every acknowledged batch. The data-race clause '
             'of the property is NOT decided by this technique (see DESIGN 6 C15).', '6 C15'),
 }
 
